@@ -330,6 +330,9 @@ func (c *StandardClass) mergeSupers() bool {
 		ssc := c.inheritCheck(sc)
 		if ssc == nil || len(ssc.precedence) == 0 {
 			c.inherit = c.inherit[:0]
+			// No longer ready, a redefinition may have introduced a
+			// superclass that is not defined yet.
+			c.precedence = c.precedence[:0]
 			return false
 		}
 		if c.Inherits(ssc) {
